@@ -141,6 +141,45 @@ DESC = {
  "C20-r3m1": ("lib/synthesis.c vorbis_synthesis_halfrate: refusal threshold applied to the halved block size", "stream with 128-sample short blocks: half rate refused"),
  "C20-r3m2": ("lib/block.c vorbis_synthesis_blockin: end trim of a first-and-last page scaled twice at half rate", "half rate on a very short link with all audio on one page"),
  "C20-r3m3": ("lib/vorbisfile.c _ov_d_seek_lap: lap length of the landing link not halved", "half rate, chain with different short block sizes, time-based lapped seek from the big-block into the small-block link"),
+ "C02-r4m1": ("lib/res0.c _01inverse: partition-word range test > instead of >=", "phrasebook with more entries than partitions^dim and a packet coding exactly entry `partvals`: reads one past the decode map"),
+ "C02-r4m2": ("lib/block.c _vds_shared_init (decode): NULL static book test removed", "a refused vorbis_synthesis_init (underpopulated codebook) followed by another init on the same vorbis_info"),
+ "C02-r4m3": ("lib/floor1.c floor1_inverse2: line rendered to the floor's own range instead of half the block", "floor 1 whose range exceeds half the block size (legal, never written by the encoder)"),
+ "C03-r4m1": ("lib/synthesis.c vorbis_synthesis_halfrate: refusal guard <64", "64-sample short blocks, ov_halfrate(1), then any decode"),
+ "C03-r4m2": ("lib/floor1.c floor1_inverse2: n taken from look->n", "floor-1 range larger than half the block: heap overflow on a plain read"),
+ "C03-r4m3": ("lib/vorbisfile.c _make_decode_ready: ready_state raised before the fallible vorbis_synthesis_init", "link whose set-up unpacks but whose decoder cannot be built; a second call on the handle after OV_EBADLINK"),
+ "C04-r4m1": ("lib/block.c vorbis_synthesis_blockin: pending-output refusal moved below the state update", "packet-level decoder that submits first and drains on refusal: the retried block is out of sequence, end trim lost"),
+ "C04-r4m2": ("lib/vorbisfile.c _bisect_forward_serialno: priming value -1", "chain with serial 0xffffffff on a non-final link"),
+ "C04-r4m3": ("lib/vorbisfile.c ov_read_filter: channels>=255 refused", "255-channel stream through ov_read"),
+ "C07-r4m1": ("lib/block.c vorbis_synthesis_blockin: sample_count only advanced for decoded blocks", "one-page link, sample seek that skips packets track-only, read to the end: end trim lost"),
+ "C07-r4m2": ("lib/vorbisfile.c _get_prev_page_serial: granule position assigned before the preferred-serial early return", "another logical stream whose last page follows the Vorbis end-of-stream page"),
+ "C07-r4m3": ("lib/vorbisfile.c ov_raw_seek: scratch stream not reset after init", "byte seek landing on the second-to-last page of the link the handle is already in"),
+ "C08-r4m1": ("lib/synthesis.c vorbis_packet_blocksize: mode field width ov_ilog(modes)-1", "stream with a non-power-of-two mode count"),
+ "C08-r4m2": ("lib/block.c vorbis_synthesis_blockin: sample_count only advanced for decoded blocks", "one-page link, seek deep enough to skip a packet track-only, read on"),
+ "C08-r4m3": ("lib/vorbisfile.c _get_prev_page_serial: granule position hoisted out of the preferred-serial branch", "multiplexed link whose other stream ends after the Vorbis stream: seeks beyond the foreign granule refused"),
+ "C09-r4m1": ("lib/vorbisfile.c _initial_pcmoffset: half a block counted per packet", "link whose positions start above zero and whose first page begins short and ends long"),
+ "C09-r4m2": ("lib/vorbisfile.c _fetch_headers/_fetch_and_process_packet: current_serialno assignment moved into _fetch_headers", "any seekable chain of two or more links read from the start"),
+ "C09-r4m3": ("lib/vorbisfile.c _ov_open1: vf->offset set to ibytes after copying initial data", "ov_open_callbacks with initial bytes on a seekable source"),
+ "C10-r4m1": ("lib/vorbisfile.c ov_halfrate: unwind loop never reaches link 0", "seekable chain with a later 64-sample link, half rate requested and refused, read on"),
+ "C10-r4m2": ("lib/vorbisfile.c ov_read_filter: channel count read before the fetch loop", "ov_read across a link boundary with another channel count"),
+ "C10-r4m3": ("lib/vorbisfile.c ov_pcm_seek_page: out-of-range refusal goes through seek_error (decoder dumped)", "mid-stream, a seek beyond the total, then further reads: samples disappear"),
+ "C11-r4m1": ("lib/floor0.c floor0_inverse2: lazy map init only on the used-floor branch", "floor-0 coupled stream, unused floor in one channel, fresh decoder at that packet: residue goes out as audio"),
+ "C11-r4m2": ("lib/synthesis.c vorbis_packet_blocksize: mode field width", "three-mode stream plus a seek that skips a mode-2 packet"),
+ "C11-r4m3": ("lib/block.c vorbis_synthesis_blockin: pending-output refusal no longer a no-op", "submit-first decode loop at a long/short switch or on the last page"),
+ "C12-r4m1": ("lib/vorbisfile.c ov_pcm_seek_page seek_error: extra ogg_sync_reset", "read failure inside a sample seek with part of a page buffered, then ov_raw_seek to the current raw position"),
+ "C12-r4m2": ("lib/vorbisfile.c _get_next_page: _get_data's -1 returned as is (equals OV_FALSE)", "read error while ov_pcm_seek skips packets in front of the target: seek returns 0 at the target with wrong audio"),
+ "C12-r4m3": ("lib/vorbisfile.c _ov_getlap: fallback copy clamped to the whole lap size", "partial block pending, next packet not buffered, read callback failing during a lapped seek: stack buffer overflow"),
+ "C13-r4m1": ("lib/vorbisfile.c _bisect_forward_serialno: header clear lost on the recursive-failure branch", "seekable chain of three or more links, failure while mapping link 3 or later"),
+ "C13-r4m2": ("lib/vorbisenc.c residue set-up: free-the-earlier-copy test and count maintenance split over two functions", "6-channel 44.1/48 kHz templates: one residue description orphaned"),
+ "C13-r4m3": ("lib/info.c vorbis_comment_clear: early return after freeing the vendor string", "comment header refused after the vendor string, then a second clear: double free"),
+ "C14-r4m1": ("lib/bitrate.c: final packet size booked in bits, emitted in whole bytes", "hard maximum pressed against over a long run or with a small reservoir"),
+ "C14-r4m2": ("lib/bitrate.c: truncation branch does not record its choice", "quiet passage on a high candidate, then a block whose smallest candidate does not fit, small reservoir"),
+ "C14-r4m3": ("lib/bitrate.c: the closing packet is not zero padded", "hard minimum, quiet tail, small reservoir"),
+ "C18-r4m1": ("lib/mapping0.c mapping0_forward: floor-fit pointer table cleared for channel 0 only", "managed mode, two or more channels, a block where a later channel is digitally silent"),
+ "C18-r4m2": ("lib/res0.c _01inverse: partword table made static", "two decoders on residue-0/1 streams running at the same time"),
+ "C18-r4m3": ("lib/vorbisfile.c _ov_splice: the longer of n1/n2 chosen", "crosslap / lapped seek between links with different short block sizes"),
+ "C19-r4m1": ("lib/vorbisfile.c ov_pcm_seek: early return when the target equals the current position", "lapped sample/time seek whose target is exactly ov_pcm_tell()"),
+ "C19-r4m2": ("lib/vorbisfile.c _ov_getlap: gives up at OV_HOLE", "lost page less than half a short block after the old position, then a lapped seek"),
+ "C19-r4m3": ("lib/vorbisfile.c _ov_d_seek_lap: old position primed with _ov_initprime", "time-based lapped seek from a handle read exactly to the end of a link"),
 }
 
 def main():
